@@ -959,6 +959,10 @@ SEEDS = [
              ("call", "m1", [], []), ("call", "m1", [V("b")], [("k", V("c"))]), ("incr", "n"), OUT("n"),
              ("capture", "w", [OUT("w"), OUT("forloop", )]), OUT("w")]},
      [{"xs": [1], "x": "G", "b": 2, "c": 3, "n": "N"}, {}]),
+    # a variable NAMED LIKE THE PARTIAL, read inside it: render/include `with … as alias` bind the alias, not the partial's name
+    ({ROOT: [("render", "p1", (False, ("y", []), "x"), [])], "p1": [("text", "[p1]"), OUT("p1"), OUT("x")]}, [{"p1": "G", "y": 1}, {"y": 2}]),
+    ({ROOT: [("render", "p1", (True, ("ys", []), "x"), [])], "p1": [("text", "[p1]"), OUT("p1"), OUT("x")]}, [{"p1": "G", "ys": [1, 2]}]),
+    ({ROOT: [("render", "p1", (False, ("y", []), None), [])], "p1": [("text", "[p1]"), OUT("p1")]}, [{"p1": "G", "y": 1}]),
 ]
 
 
